@@ -201,8 +201,9 @@ func (t *Tx) Commit(ctx context.Context) error {
 func (t *Tx) Rollback(ctx context.Context) error {
 	f, rec := t.s.call(t.c.id, t.id, "Rollback")
 	if t.ended {
-		t.s.Misuse = append(t.s.Misuse, fmt.Sprintf("call %d: Rollback on ended tx %d", rec.Idx, t.id))
-		rec.Err = "tx closed"
+		// not a misuse: pgx documents Rollback on a closed Tx as a safe no-op returning ErrTxClosed
+		// ("a defer tx.Rollback() is safe even if tx.Commit() will be called first"); nothing reaches the server
+		rec.Err = "tx closed (no-op)"
 		return pgx.ErrTxClosed
 	}
 	if t.rows != nil {
